@@ -82,7 +82,7 @@ def root_name(node):
 
 
 def xev(e: ast.AST, env: dict):
-    """minieval.ev plus the string operations the parsers use to build paths / keys: str + str, sep.join(list), s.removeprefix(p), s[a:b].
+    """minieval.ev plus the string operations the parsers use to build paths / keys: str + str, sep.join(list), s.removeprefix(p), s[a:b], str(x) / repr(x) of a scalar or None.
     Sub-expressions of these kinds are evaluated bottom-up on a fresh copy and replaced by their value; everything else is left to ev()."""
 
     class T(ast.NodeTransformer):
@@ -101,6 +101,10 @@ def xev(e: ast.AST, env: dict):
                     s_, p_ = ev(n.func.value, env), ev(n.args[0], env)
                     if isinstance(s_, str) and isinstance(p_, str):
                         return ast.Constant(value=s_.removeprefix(p_))
+                elif isinstance(n, ast.Call) and isinstance(n.func, ast.Name) and n.func.id in ("str", "repr") and len(n.args) == 1 and not n.keywords:
+                    v_ = ev(n.args[0], env)
+                    if v_ is None or isinstance(v_, (bool, int, float, str)):
+                        return ast.Constant(value=str(v_) if n.func.id == "str" else repr(v_))
                 elif isinstance(n, ast.Subscript) and isinstance(n.slice, ast.Slice):
                     base = ev(n.value, env)
                     lo, hi, st = [ev(x, env) if x is not None else None for x in (n.slice.lower, n.slice.upper, n.slice.step)]
@@ -125,7 +129,11 @@ def run(chk):
         "representative items (status x _shards) must classify each item as failed iff status > 299 or _shards.failed > 0, identically in both; success == (error count == 0) in both; "
         "no JSON value's end is delimited by a regex character class / find on a structural character (regex AST query) and offsets found in one text are only applied to that same text; "
         "the selective parser matches on full ijson prefixes, derives member keys by stripping the object's own path, and exits early only when everything requested was seen. "
-        "Known findings: fast-path gate does not summarise the _shards.failed disjunct (F10); the cursor key is located by a nesting-insensitive text search (F9b)."
+        "Orderings over the collected (status, reason) error details are evaluated over the details the extraction produces for representative failed items and must be total (F29); "
+        "the pattern, locator literal and decoder offset of the cursor search are evaluated on seven spellings of the member (white space around the colon) and must point at the "
+        "value's opening bracket (F30); once a cursor is stored in the shared body, every path to ANY exit of the page function (exception edges included) removes it again (F28). "
+        "Known findings: fast-path gate does not summarise the _shards.failed disjunct (F10; also hides a 404 not_found delete item); the cursor key is located by a "
+        "nesting-insensitive text search (F9b)."
     )
     chk.not_decided = "equivalence on all JSON texts, hit/page accounting arithmetic, ijson's own behaviour."
     BI = rn.cls("BulkIndex")
@@ -336,7 +344,8 @@ def run(chk):
 
     # ---- O19.4 known finding F10 ---------------------------------------------------------------------------------------------------------------------
     chk.rule("O19.4", "the fast-path gate (top-level `errors` flag) summarises every disjunct of the item failure predicate", 1,
-             "item with status 201 and _shards.failed=1 while errors=false: fast path reports success 1/0, detailed path failure 0/1")
+             "item with status 201 and _shards.failed=1 while errors=false: fast path reports success 1/0, detailed path failure 0/1; the same gate hides the other disjunct for a bulk "
+             "delete of an absent document (404 / result not_found, no error object, errors=false): fast path success 4/0, detailed path failure 3/1 (hunt C19-f3, another face of F10)")
     L = item_loop(simp)
     g_ = [gate_open(L, e_) for e_ in (True, False, None)]
     # the loop runs with errors=true but not with errors=false / absent (evaluated); fallback: a guard mentions the `errors` key
@@ -352,10 +361,143 @@ def run(chk):
            "items are only inspected when the response's `errors` flag is set, but the item predicate also fails items with _shards.failed > 0, which Elasticsearch does not reflect in `errors`",
            key=f"{_R}:BulkIndex.simple_stats:gate-vs-item-predicate:_shards.failed")
 
+    # ---- O19.9 orderings over the collected error details are total (F29) ------------------------------------------------------------------------------------------
+    chk.rule("O19.9", "every ordering (sorted / sort / min / max) applied to the error details collected from the failed bulk items is total over the details the extraction can produce: "
+             "a failed item may carry no reason (detail (status, None)) next to an item of the same status that carries one (detail (status, str))", 1,
+             "two failed items share a status and only one has an error reason (delete of an absent document + update of an absent document; `reason: null`): TypeError from comparing "
+             "None with str in BOTH the detailed and the fast path - neither reports success / error counts at all")
+    xd = bm.get("extract_error_details")
+    if xd is None:
+        raise AnchorMissing("BulkIndex.extract_error_details")
+    # roles of its parameters by use: the collection is the one details are added to, the item is the other one
+    xparams = [p_ for p_ in params_of(xd) if p_ not in ("self", "cls")]
+    coll = [p_ for p_ in xparams if any(isinstance(n, ast.Call) and isinstance(n.func, ast.Attribute) and n.func.attr in ("add", "append") and isinstance(n.func.value, ast.Name)
+                                         and n.func.value.id == p_ for n in walk_body(xd))]
+    if len(coll) != 1 or len(xparams) != 2:
+        raise AnchorMissing("extract_error_details(<collection the details are added to>, <item>)")
+    DCOLL = coll[0]
+    DITEM = [p_ for p_ in xparams if p_ != DCOLL][0]
+
+    def details_of(item):
+        """the details the extraction adds for one failed item: its straight-line body interpreted on the item (assignments, if/else, <collection>.add(<expr>))."""
+        env = {DITEM: copy.deepcopy(item)}
+        added = []
+
+        def block(stmts):
+            for s in stmts:
+                if isinstance(s, ast.Pass) or is_logging_stmt(s) or (isinstance(s, ast.Expr) and isinstance(s.value, ast.Constant)):
+                    continue
+                if isinstance(s, ast.Assign) and len(s.targets) == 1 and isinstance(s.targets[0], ast.Name):
+                    env[s.targets[0].id] = ev(s.value, env)
+                elif isinstance(s, ast.If):
+                    block(s.body if ev(s.test, env) else s.orelse)
+                elif isinstance(s, ast.Expr) and isinstance(s.value, ast.Call) and isinstance(s.value.func, ast.Attribute) and s.value.func.attr in ("add", "append") \
+                        and isinstance(s.value.func.value, ast.Name) and s.value.func.value.id == DCOLL and len(s.value.args) == 1 and not s.value.keywords:
+                    v_ = ev(s.value.args[0], env)
+                    hash(v_)
+                    added.append(v_)
+                else:
+                    raise CannotEval(f"statement `{short(s, 60)}`")
+
+        block(xd.body)
+        return added
+
+    # representative FAILED items: with a reason, without an error object (delete of an absent document; item failed because of its shards), error without reason, `reason: null`,
+    # error given as plain text - two statuses, so that details tie on the status
+    FAILED = [{"status": st_, **extra} for st_ in (404, 500) for extra in ({"error": {"type": "x", "reason": "r"}}, {"error": {"type": "x", "reason": "another reason"}}, {"result": "not_found"},
+                                                                           {"error": {"type": "x"}}, {"error": {"type": "x", "reason": None}}, {"error": "plain text"})]
+    FAILED.append({"status": 201, "_shards": {"total": 2, "successful": 1, "failed": 1}})
+    DETAILS = None
+    try:
+        DETAILS = set()
+        for it_ in FAILED:
+            DETAILS |= set(details_of(it_))
+    except (CannotEval, TypeError) as e:
+        chk.unknown("O19.9", f"extract_error_details cannot be interpreted over the representative failed items: {e}", xd)
+        DETAILS = None
+    if DETAILS is not None and not DETAILS:
+        raise AnchorMissing("extract_error_details adds no detail for any representative failed item")
+
+    def key_function(kx, fn):
+        """python callable for the key= expression of an ordering: a lambda, a local / nested / own-class function with a single returned expression, operator.itemgetter, str / repr."""
+        kx = source.inline_node(kx, local_defs(fn)) if isinstance(kx, ast.Name) and kx.id in local_defs(fn) else kx
+        if isinstance(kx, ast.Lambda) and len(kx.args.args) == 1 and not (kx.args.vararg or kx.args.kwarg or kx.args.kwonlyargs or kx.args.posonlyargs):
+            return lambda v, kx=kx: xev(kx.body, {kx.args.args[0].arg: v})
+        if isinstance(kx, ast.Name) and kx.id in ("str", "repr"):
+            return {"str": str, "repr": repr}[kx.id]
+        if isinstance(kx, ast.Call) and dotted(kx.func) in ("operator.itemgetter", "itemgetter") and kx.args and all(isinstance(a, ast.Constant) and type(a.value) is int for a in kx.args):
+            idx = [a.value for a in kx.args]
+            return (lambda v: v[idx[0]]) if len(idx) == 1 else (lambda v: tuple(v[i] for i in idx))
+        target = None
+        if isinstance(kx, ast.Name):
+            target = next((n for n in walk_body(fn) if isinstance(n, (ast.FunctionDef,)) and n.name == kx.id), None) or (rn.index().get(kx.id) if isinstance(rn.index().get(kx.id), ast.FunctionDef) else None)
+        elif is_self_attr(kx):
+            target = bm.get(kx.attr)
+        if target is not None:
+            ps = [p_ for p_ in params_of(target) if p_ not in ("self", "cls")]
+            body = [s for s in target.body if not (is_logging_stmt(s) or (isinstance(s, ast.Expr) and isinstance(s.value, ast.Constant)))]
+            if len(ps) == 1 and len(body) == 1 and isinstance(body[0], ast.Return) and body[0].value is not None:
+                return lambda v, e_=body[0].value, p_=ps[0]: xev(e_, {p_: v})
+        raise CannotEval(f"key function `{short(kx, 60)}`")
+
+    if DETAILS is not None:
+        # the counting paths themselves and the methods of the class they hand the SAME collection to (and whatever those pass it on to)
+        todo = []
+        for f in (det, simp):
+            xcalls = [n for n in walk_body(f) if isinstance(n, ast.Call) and is_self_attr(n.func, xd.name)]
+            names = {a.id for c_ in xcalls for a in [source.bind_args(c_, xd).get(DCOLL)] if isinstance(a, ast.Name)}
+            if len(names) != 1:
+                raise AnchorMissing(f"{f.name}: the collection handed to extract_error_details")
+            todo.append((f, names.pop()))
+        seen9 = set()
+        while todo:
+            fn, P = todo.pop()
+            if (fn.name, P) in seen9:
+                continue
+            seen9.add((fn.name, P))
+            for n in walk_body(fn):
+                if not isinstance(n, ast.Call):
+                    continue
+                if is_self_attr(n.func) and n.func.attr in bm and n.func.attr != xd.name:
+                    for p_, a in source.bind_args(n, bm[n.func.attr]).items():
+                        if isinstance(a, ast.Name) and a.id == P:
+                            todo.append((bm[n.func.attr], p_))
+                if dotted(n.func) in ("sorted", "min", "max") and len(n.args) == 1:
+                    subject, what = n.args[0], dotted(n.func)
+                elif isinstance(n.func, ast.Attribute) and n.func.attr == "sort" and not n.args:
+                    subject, what = n.func.value, "sort"
+                else:
+                    continue
+                subj = source.inline_node(subject, {k_: v_ for k_, v_ in local_defs(fn).items() if k_ != P})
+                if P not in loads_of(subj):
+                    continue  # an ordering of something else (e.g. of the status codes only)
+                kx = next((k.value for k in n.keywords if k.arg == "key"), None)
+                try:
+                    elems = xev(subj, {P: set(DETAILS)})
+                    if not isinstance(elems, (set, list, tuple, frozenset)):
+                        raise CannotEval(f"`{short(subject, 60)}` is not a collection of details")
+                    elems = sorted(elems, key=repr)
+                    keyf = key_function(kx, fn) if kx is not None and not (isinstance(kx, ast.Constant) and kx.value is None) else (lambda v: v)
+                    keys = [keyf(e_) for e_ in elems]
+                except (CannotEval, TypeError, IndexError) as e:
+                    chk.unknown("O19.9", f"{fn.name}: `{short(n, 70)}` cannot be evaluated over the representative details: {e}", n)
+                    continue
+                clash = None
+                for (e1, k1), (e2, k2) in itertools.combinations(zip(elems, keys), 2):
+                    try:
+                        k1 < k2, k2 < k1
+                    except TypeError:
+                        clash = (e1, e2)
+                        break
+                chk.ob("O19.9", f"{fn.name}: {what}() over the error details never compares a missing reason (None) with a reason (str)", clash is None, n,
+                       short(n, 90) + (f" — total over {len(elems)} representative details, {sum(1 for e_ in elems if isinstance(e_, tuple) and None in e_)} of them without a reason"
+                                       if clash is None else f" — ordering the details {clash[0]!r} and {clash[1]!r} raises TypeError: no statistics at all for this bulk in either path"),
+                       key=f"{_R}:BulkIndex.{fn.name}:ordering-of-details:{what}")
     # ---- O19.2 value boundaries ----------------------------------------------------------------------------------------------------------------------------
     chk.rule("O19.2", "no JSON value handed to a JSON decoder has its END delimited by a regex character class or a text search on a structural character; offsets found in one text are "
-             "applied only to that same text (not bytes offsets on the decoded string)", 3,
-             "sort value containing ']' or a nested array; non-ASCII text before the last hit")
+             "applied only to that same text (not bytes offsets on the decoded string); the START of the value is found for every JSON spelling of the member (white space - space, tab, "
+             "LF, CR - on either side of the colon, as in pretty-printed responses) and is the value's opening bracket", 10,
+             "sort value containing ']' or a nested array; non-ASCII text before the last hit; a pretty-printed response (`\"sort\" : [2]`): no cursor where a full parse gives [2]")
     SA = rn.cls("SearchAfterExtractor")
     sm = rn.methods(SA)
     gl = sm.get("_get_last_sort")
@@ -422,6 +564,112 @@ def run(chk):
     # decoded once: the text searched is the decoded response
     dec = [n for n in walk_body(gl) if isinstance(n, ast.Call) and last_attr(n.func) == "decode"]
     chk.ob("O19.2", "response decoded as UTF-8 before searching", bool(dec) and any(source.is_const(a, "UTF-8") or source.is_const(a, "utf-8") for a in dec[0].args), dec[0] if dec else gl, "")
+    # F30: the START of the value, decided on values. The extracted locator literal (rfind / find argument), the extracted pattern literal and the extracted decoder offset expression
+    # are evaluated on a response whose last hit spells the member with white space on either side of the colon: the offset handed to the decoder must be the position of the value's
+    # opening bracket (what a full parse of the same text uses). Nothing of the repository runs: `re` is applied to the pattern LITERAL, str.rfind to the locator LITERAL.
+    import json as _json
+    import re as _re
+
+    def compiled_literal(pexpr):
+        """the pattern text behind the expression handed to search / match: a string literal, an attribute bound to re.compile(<literal>) in the class, or a local of either kind."""
+        pi = source.inline_node(pexpr, gdefs)
+        if isinstance(pi, ast.Constant) and isinstance(pi.value, str):
+            return pi.value
+        # bound in the class (self.x = re.compile(..) in a method, x = re.compile(..) in the class body) or at module level
+        bound = [pn for pname, (_, pn) in pats.items() if isinstance(pn, ast.Assign) and last_attr(pn.targets[0]) == last_attr(pi) and isinstance(pi, (ast.Name, ast.Attribute))]
+        call_ = bound[0].value if len(bound) == 1 else (rn.module_constant(pi.id) if isinstance(pi, ast.Name) and rn.module_constant(pi.id) is not None else pi)
+        if isinstance(call_, ast.Call) and dotted(call_.func) == "re.compile" and len(call_.args) == 1 and not call_.keywords and isinstance(call_.args[0], ast.Constant) \
+                and isinstance(call_.args[0].value, str):
+            return call_.args[0].value
+        return None
+
+    probes = []  # (search call, method, pattern text, text expression, name bound to the match)
+    for n in walk_body(gl):
+        if not isinstance(n, ast.Call):
+            continue
+        if dotted(n.func) in ("re.search", "re.match", "re.fullmatch") and len(n.args) == 2 and not n.keywords:
+            pexpr, texpr, meth = n.args[0], n.args[1], n.func.attr
+        elif isinstance(n.func, ast.Attribute) and n.func.attr in ("search", "match", "fullmatch") and len(n.args) == 1 and not n.keywords and dotted(n.func.value) != "re":
+            pexpr, texpr, meth = n.func.value, n.args[0], n.func.attr
+        else:
+            continue
+        ptxt = compiled_literal(pexpr)
+        if ptxt is None:
+            continue
+        as_ = source.enclosing_stmt(n)
+        mv = as_.targets[0].id if isinstance(as_, ast.Assign) and as_.value is n and len(as_.targets) == 1 and isinstance(as_.targets[0], ast.Name) else None
+        probes.append((n, meth, ptxt, texpr, mv))
+    if len(probes) != 1:
+        raise AnchorMissing(f"_get_last_sort: the one pattern search that locates the cursor value ({len(probes)} found)")
+    sc, meth, ptxt, texpr, mv = probes[0]
+    try:
+        cpat = _re.compile(ptxt)
+    except _re.error as e:
+        raise AnchorMissing(f"_get_last_sort: pattern {ptxt!r} does not compile: {e}")
+    raw = [d for d in decs if last_attr(d.func) == "raw_decode" and len(d.args) == 2]
+
+    class OnText(ast.NodeTransformer):
+        """replaces `<text>.rfind(<literal>)` (find / index / rindex) by its value on the probe text and `<match>.start(k)` / `.end(k)` by the value for the probe match."""
+
+        def __init__(self, full, m):
+            self.full, self.m = full, m
+
+        def visit_Call(self, c):
+            self.generic_visit(c)
+            if isinstance(c.func, ast.Attribute) and not c.keywords:
+                if c.func.attr in ("rfind", "find", "index", "rindex") and len(c.args) == 1 and isinstance(c.args[0], ast.Constant) and isinstance(c.args[0].value, str):
+                    try:
+                        return ast.Constant(value=getattr(self.full, c.func.attr)(c.args[0].value))
+                    except ValueError:
+                        raise CannotEval(f"{u(c)}: not found in the probe text")
+                if c.func.attr in ("start", "end") and isinstance(c.func.value, ast.Name) and c.func.value.id == mv and len(c.args) <= 1 and all(isinstance(a, ast.Constant) for a in c.args):
+                    if self.m is None:
+                        raise CannotEval("no match")
+                    try:
+                        return ast.Constant(value=getattr(self.m, c.func.attr)(*[a.value for a in c.args]))
+                    except (IndexError, TypeError) as x:
+                        raise CannotEval(f"{u(c)}: {x}")
+            return c
+
+    def on_text(expr, full, m):
+        return ev(OnText(full, m).visit(source.inline_node(expr, {k_: v_ for k_, v_ in gdefs.items() if k_ != mv})), {})
+
+    for ws1, ws2 in (("", ""), ("", " "), (" ", " "), (" ", ""), ("\n      ", "\n      "), ("\t", "\t"), ("\r\n", "\r\n")):
+        member = '"sort"' + ws1 + ":" + ws2 + "[2]"
+        full = '{"took":1,"timed_out":false,"hits":{"total":{"value":4,"relation":"eq"},"hits":[{"_id":"1","sort":[1]},{"_id":"2",' + member + "}]}}"
+        want = full.index(member) + member.index("[")  # where a full parse finds the value: the last hit's `[`
+        assert _json.loads(full)["hits"]["hits"][-1]["sort"] == [2] and _json.JSONDecoder().raw_decode(full, want)[0] == [2]
+        inst = f"cursor value located when the member is spelled {member!r}"
+        key_ = f"{_R}:SearchAfterExtractor._get_last_sort:value-start:{ws1!r}:{ws2!r}"
+        try:
+            # the text searched: the decoded response, or its tail from an offset found by a literal text search
+            if isinstance(texpr, ast.Subscript) and isinstance(texpr.slice, ast.Slice) and texpr.slice.upper is None and texpr.slice.step is None:
+                start = on_text(texpr.slice.lower, full, None) if texpr.slice.lower is not None else 0
+            elif isinstance(source.inline_node(texpr, gdefs), ast.Subscript):
+                raise CannotEval(f"text searched: {u(texpr)}")
+            else:
+                start = 0
+            if not isinstance(start, int) or isinstance(start, bool) or start < 0:
+                raise CannotEval(f"start of the text searched: {start!r}")
+            m = getattr(cpat, meth)(full[start:])
+            if m is None:
+                chk.ob("O19.2", inst, False, sc, f"pattern {ptxt!r} does not match: the fast path returns no cursor, a full parse of the same response gives [2]", key=key_)
+                continue
+            if raw:
+                got = on_text(raw[0].args[1], full, m)
+                how_ = f"decoder offset `{u(raw[0].args[1])}`"
+            else:
+                # no offset-based decoder: the positions read off the match, relative to the text searched
+                pos = [c for c in walk_body(gl) if isinstance(c, ast.Call) and isinstance(c.func, ast.Attribute) and c.func.attr in ("start", "end") and isinstance(c.func.value, ast.Name)
+                       and c.func.value.id == mv]
+                if not pos:
+                    raise CannotEval("no offset is read off the match")
+                got = start + on_text(pos[0], full, m)
+                how_ = f"`{u(pos[0])}`"
+            chk.ob("O19.2", inst, got == want, sc, f"pattern {ptxt!r}: {how_} = {got}, the value's opening bracket is at {want}", key=key_)
+        except CannotEval as e:
+            chk.unknown("O19.2", f"_get_last_sort: the position handed to the decoder cannot be evaluated on a probe text: {e}", sc)
+            break
 
     # ---- O19.5 known finding F9b ----------------------------------------------------------------------------------------------------------------------------
     chk.rule("O19.5", "the cursor key of the last hit is located structurally, not by a nesting-insensitive text search", 1,
@@ -467,6 +715,67 @@ def run(chk):
         if not any(isinstance(n, ast.Assign) and isinstance(n.targets[0], ast.Subscript) and source.is_const(n.targets[0].slice, cursor_member) for n in walk_body(ec)):
             raise AnchorMissing(f"{attr}.__call__: result member {cursor_member!r}")
         return ("key", cursor_member)
+
+    from sa.cfg import conjuncts as _conjuncts
+
+    def removal_sites(fn, key, recv):
+        """the statements of fn that, whenever they are reached, leave the dict `recv` without `key`: `recv.pop(key[, default])` / `del recv[key]`, lifted over
+          - guards that only ask whether there is anything to remove (`if recv:`, `if recv is not None:`, `if key in recv:`, `isinstance(recv, dict)`): the enclosing `if` is the site;
+          - `for k in [<literals including key>]: recv.pop(k, default)`: a loop over a non-empty literal runs its body for every element, so the `for` is the site
+            (the pop must be a direct statement of a loop body without jumps, and must not raise for an absent key)."""
+        out = []
+        for n in walk_body(fn):
+            arg, total = None, False
+            if isinstance(n, ast.Call) and isinstance(n.func, ast.Attribute) and n.func.attr == "pop" and n.args and not n.keywords and u(n.func.value) == recv:
+                arg, total = n.args[0], len(n.args) == 2
+            elif isinstance(n, ast.Delete):
+                for t in n.targets:
+                    if isinstance(t, ast.Subscript) and u(t.value) == recv:
+                        arg = t.slice
+            if arg is None:
+                continue
+            pending = None
+            if isinstance(arg, ast.Name):
+                pending = arg.id  # the key is a loop variable: resolved when the loop over the literal keys is reached
+            elif not source.is_const(arg, key):
+                continue
+            s_ = source.enclosing_stmt(n)
+
+            def own_guard(c, pending=pending):
+                return u(c) == recv or _pat.is_(c, f"{recv} is not None", f"{key!r} in {recv}", f"isinstance({recv}, dict)") or (pending is not None and _pat.is_(c, f"{pending} in {recv}"))
+
+            while True:
+                p = source.parent(s_)
+                if isinstance(p, ast.If) and any(s_ is x for x in p.body) and all(own_guard(c) for c in _conjuncts(p.test)):
+                    s_ = p
+                elif pending is not None and total and isinstance(p, ast.For) and isinstance(p.target, ast.Name) and p.target.id == pending and isinstance(p.iter, (ast.List, ast.Tuple)) \
+                        and any(source.is_const(e_, key) for e_ in p.iter.elts) and any(s_ is x for x in p.body) and not p.orelse \
+                        and not any(isinstance(x, (ast.Break, ast.Continue, ast.Return, ast.Raise)) for x in ast.walk(p)):
+                    s_, pending = p, None
+                else:
+                    break
+            if pending is None:
+                out.append(s_)
+        return out
+
+    def cfg_catching_exception(fn):
+        """a private CFG of fn in which `except Exception` ends the outward propagation like `except BaseException` does (not cached, the shared CFGs are untouched)."""
+        from sa import cfg as _cfgmod
+        saved = _cfgmod.CATCH_ALL
+        _cfgmod.CATCH_ALL = set(saved) | {"Exception"}
+        try:
+            return _cfgmod.CFG(fn)
+        finally:
+            _cfgmod.CATCH_ALL = saved
+
+    def cannot_raise(s):
+        """statements whose conservative exception edge is ignored when asking what runs before an exit: `<name>.pop(<key>, <default>)` (dict.pop with a default never raises
+        for a hashable key) and logging calls."""
+        if not isinstance(s, ast.Expr):
+            return False
+        c = s.value
+        return is_logging_stmt(s) or (isinstance(c, ast.Call) and isinstance(c.func, ast.Attribute) and c.func.attr == "pop" and isinstance(c.func.value, ast.Name) and len(c.args) == 2
+                                      and not c.keywords and isinstance(c.args[0], (ast.Constant, ast.Name)) and isinstance(c.args[1], ast.Constant))
 
     for fname, extractor, cursor_key, cursor_call, cursor_member in (("_search_after_query", "_search_after_extractor", "search_after", "_get_last_sort", None),
                                                                     ("_composite_agg", "_composite_agg_extractor", "after", None, "after_key")):
@@ -548,8 +857,53 @@ def run(chk):
                         and (source.is_const(n.args[0], cursor_key) or (isinstance(n.args[0], ast.Name) and any(isinstance(l_, ast.For) and isinstance(l_.target, ast.Name) and l_.target.id == n.args[0].id
                              and isinstance(l_.iter, (ast.List, ast.Tuple)) and any(source.is_const(e_, cursor_key) for e_ in l_.iter.elts) for l_ in source.ancestors(n))))]
             cleaned = bool(removals) and gq.must_pass(gq.node_of(st[0]), [gq.node_of(r_) for r_ in removals], normal_only=True)
-            chk.ob("O19.6", f"{fname}: the cursor never survives the invocation in the operation's body", more or cleaned, st[0],
-                   "stored only when another page follows" if more else ("removed on every path to the return" if cleaned else
+            # (emitted below, once the every-exit analysis is available: a removal on every exit - e.g. in a finally - also covers the regular end of the loop)
+            # F28: storing the cursor only when another page follows is not enough - that very request (or anything else before the regular end of the loop) may raise, and with
+            # on-error=continue the task goes on with the next iteration on the SAME body. So: every path from the store to ANY exit of the function, exception edges included,
+            # passes a statement that removes that key from that dict (finally bodies are duplicated per continuation kind, all copies count) - or every invocation removes the
+            # key before its first request. Exceptions a handler for `Exception` catches are taken as caught: what on-error=continue swallows (TransportError, ApiError) is below it,
+            # anything else ends the benchmark
+            recv_ = u(st[0].targets[0].value)
+            sites_ = removal_sites(fq_, cursor_key, recv_)
+            gx = cfg_catching_exception(fq_)
+            thr_ = [n_ for s_ in sites_ for n_ in gx.nodes_of(s_)]
+
+            def edge_ok(x_, y_, lab_, gx=gx):
+                return gx.normal_edge(x_, y_, lab_) or not cannot_raise(gx.nodes[x_].ast)
+
+            heads_ = gx.nodes_of(PL_)
+            done_ = {(h_.id, y_, lab_) for h_ in heads_ for y_, lab_ in gx.succ[h_.id] if lab_ == "exhausted"}
+            leak = None
+            for src_ in gx.nodes_of(st[0]):
+                if more:
+                    # the page limit ends the loop only after an iteration that did NOT store (`page < last page` fails there): paths through the loop's `exhausted` edge are
+                    # followed from the start of such a last iteration, around the store
+                    seen_ = gx.reachable([src_], avoid=thr_, avoid_edges=done_, edge_ok=edge_ok)
+                    starts_ = [(h_, gx.nodes[y_]) for h_ in heads_ if h_.id in seen_ for y_, lab_ in gx.succ[h_.id] if lab_ == "iter"]
+                    last_ = gx.reachable([n_ for _, n_ in starts_], avoid=thr_ + gx.nodes_of(st[0]), edge_ok=edge_ok) if starts_ else set()
+                else:
+                    seen_, last_ = gx.reachable([src_], avoid=thr_, edge_ok=edge_ok), set()
+                for ex_node in (gx.raise_exit, gx.exit):
+                    if leak is None and ex_node.id in seen_ | last_:
+                        if ex_node.id in seen_:
+                            p_ = gx.find_path(src_, ex_node, avoid=thr_, edge_ok=lambda x_, y_, lab_: edge_ok(x_, y_, lab_) and not (more and (x_, y_, lab_) in done_))
+                        else:
+                            p_ = gx.find_path(starts_[0][1], ex_node, avoid=thr_ + gx.nodes_of(st[0]), edge_ok=edge_ok)
+                        leak = ("an exception propagates" if ex_node is gx.raise_exit else "it returns", gx.describe_path(p_) if p_ else [])
+            # alternative: whatever an earlier invocation left behind is removed before the first request of this one
+            fresh_ = [n_ for s_ in sites_ if not any(a_ is PL_ for a_ in source.ancestors(s_)) and s_ is not PL_ for n_ in gx.nodes_of(s_)]
+            starts_clean = bool(fresh_) and len(rq) == 1 and all(gx.dominated_by_nodes(r_, fresh_) for r_ in gx.nodes_of(rq[0]))
+            chk.ob("O19.6", f"{fname}: once stored, the cursor is removed from the operation's body on EVERY exit of the invocation, also when a later page request raises",
+                   (bool(thr_) and leak is None) or starts_clean, st[0],
+                   "removed before the first request of every invocation" if starts_clean else
+                   (f"{len(sites_)} removal site(s) of {recv_}[{cursor_key!r}]; every path from the store to the return and to a propagating exception passes one" if thr_ and leak is None else
+                    (f"no statement removes {recv_}[{cursor_key!r}]" if not thr_ else
+                     f"after the store the function can be left ({leak[0]}) without removing {recv_}[{cursor_key!r}]: with on-error=continue the next iteration of the task starts "
+                     f"from this stale cursor instead of the first page")),
+                   key=f"{_R}:Query.{fname}:cursor-removed-on-every-exit", path=(leak[1][:40] if leak else None))
+            every_exit = (bool(thr_) and leak is None) or starts_clean
+            chk.ob("O19.6", f"{fname}: the cursor never survives the invocation in the operation's body", more or cleaned or every_exit, st[0],
+                   "stored only when another page follows" if more else ("removed on every path to the return" if cleaned or every_exit else
                    "when the page limit ends the loop the cursor stays in the body the parameter source hands out again: the next iteration of the task starts from a stale cursor"),
                    key=f"{_R}:Query.{fname}:cursor-does-not-survive")
         pg = {n.targets[0].slice.value: n.value for n in ast.walk(PL_) if isinstance(n, ast.Assign) and isinstance(n.targets[0], ast.Subscript) and isinstance(n.targets[0].value, ast.Name)
@@ -838,8 +1192,8 @@ from sa.selftest import V  # noqa: E402
 
 _NEW = "            # sort values may contain brackets themselves so only the JSON decoder can tell where the array ends\n            last_sort, _ = self.decoder.raw_decode(response_str, index_of_last_sort + last_sort_str.start(1))\n            return last_sort"
 VARIANTS = [
-    V("F17: cursor stored after the last allowed page (search_after)", "break", _R, "                if results.get(\"hits\") / size > page and page < total_pages:", "                if results.get(\"hits\") / size > page:", "O19.6"),
-    V("F17: cursor stored after the last allowed page (composite)", "break", _R, "                if isinstance(after_key, dict) and page < total_pages:", "                if isinstance(after_key, dict):", "O19.6"),
+    V("F17 guard dropped (harmless since F28: the finally removes the cursor on every exit) (search_after)", "keep", _R, "                if results.get(\"hits\") / size > page and page < total_pages:", "                if results.get(\"hits\") / size > page:", "O19.6"),
+    V("F17 guard dropped (harmless since F28: the finally removes the cursor on every exit) (composite)", "keep", _R, "                if isinstance(after_key, dict) and page < total_pages:", "                if isinstance(after_key, dict):", "O19.6"),
     V("page limit test written the other way round", "keep", _R, "                if results.get(\"hits\") / size > page and page < total_pages:", "                if total_pages > page and results.get(\"hits\") / size > page:"),
     V("F9a: value cut out by a bracket character class", "break", _R, _NEW, "            return json.loads(re.search(r\"sort\\\":([^\\]]*])\", response_str[index_of_last_sort::]).group(1))", None),
     V("different failure predicate in the fast path", "break", _R, "                if data[\"status\"] > 299 or (\"_shards\" in data and data[\"_shards\"][\"failed\"] > 0):\n                    bulk_error_count += 1\n                    self.extract_error_details(error_details, data)\n                else:\n                    bulk_success_count += 1\n        stats = {\n            \"took\": props.get(\"took\"),",
@@ -854,7 +1208,46 @@ VARIANTS = [
     V("match on value instead of prefix", "break", _R, "            if prefix in props:\n                parsed[prefix] = value", "            if event == \"map_key\" and value in props:\n                parsed[value] = value", "O19.3"),
     V("early exit on properties only", "break", _R, "                len(parsed) == len(props)\n                and (lists is None or len(parsed_lists) == len(lists))\n                and (objects is None or len(parsed_objects) == len(objects))", "                len(parsed) == len(props)", "O19.3"),
     V("cursor from the request body instead of the response", "break", _R, "                    body[\"search_after\"] = last_sort", "                    body[\"search_after\"] = body.get(\"search_after\", last_sort)", "O19.6"),
-    V("composite after key from the previous page", "break", _R, "                after_key = parsed[\"after_key\"]\n                if isinstance(after_key, dict) and", "                after_key = composite_agg_body.get(\"after\") or parsed[\"after_key\"]\n                if isinstance(after_key, dict) and", "O19.6"),
+    V("composite after key from the previous page", "break", _R, "                    after_key = parsed[\"after_key\"]\n                    if isinstance(after_key, dict) and", "                    after_key = composite_agg_body.get(\"after\") or parsed[\"after_key\"]\n                    if isinstance(after_key, dict) and", "O19.6"),
+    # F28: un-mutation of the shared body on every exit
+    V("F28: finally no longer removes the search_after cursor", "break", _R,
+      "                # also when a page request fails: the same body is handed out again for the next iteration\n                for item in [\"pit\", \"search_after\"]:\n                    body.pop(item, None)\n",
+      "                # also when a page request fails: the same body is handed out again for the next iteration\n                for item in [\"pit\"]:\n                    body.pop(item, None)\n", "O19.6"),
+    V("F28: finally no longer removes the composite after key", "break", _R,
+      "            finally:\n                body.pop(\"pit\", None)\n                if composite_agg_body:\n                    composite_agg_body.pop(\"after\", None)\n",
+      "            finally:\n                body.pop(\"pit\", None)\n", "O19.6"),
+    V("F28: cursor removed only when the failure is a Rally error", "break", _R,
+      "            finally:\n                body.pop(\"pit\", None)\n                if composite_agg_body:\n                    composite_agg_body.pop(\"after\", None)\n",
+      "            except exceptions.RallyError:\n                body.pop(\"pit\", None)\n                if composite_agg_body:\n                    composite_agg_body.pop(\"after\", None)\n                raise\n", "O19.6"),
+    V("F28 respelled: explicit pops instead of the loop over the keys", "keep", _R,
+      "                # also when a page request fails: the same body is handed out again for the next iteration\n                for item in [\"pit\", \"search_after\"]:\n                    body.pop(item, None)\n",
+      "                body.pop(\"search_after\", None)\n                body.pop(\"pit\", None)\n"),
+    V("F28 respelled: composite clean-up guarded by `is not None` and a membership test", "keep", _R,
+      "            finally:\n                body.pop(\"pit\", None)\n                if composite_agg_body:\n                    composite_agg_body.pop(\"after\", None)\n",
+      "            finally:\n                if composite_agg_body is not None and \"after\" in composite_agg_body:\n                    del composite_agg_body[\"after\"]\n                body.pop(\"pit\", None)\n"),
+    # F29: ordering of the (status, reason) details
+    V("F29: details sorted without a key", "break", _R, "enumerate(sorted(error_details, key=lambda d: (d[0], d[1] is not None, d[1] or \"\"))):", "enumerate(sorted(error_details)):", "O19.9"),
+    V("F29: key still compares the raw reason", "break", _R, "key=lambda d: (d[0], d[1] is not None, d[1] or \"\")", "key=lambda d: (d[0], d[1])", "O19.9"),
+    V("F29 respelled: key as a nested function, other parameter name", "keep", _R,
+      "        for count, error_detail in enumerate(sorted(error_details, key=lambda d: (d[0], d[1] is not None, d[1] or \"\"))):",
+      "        def by_status_then_reason(detail):\n            return detail[0], detail[1] is not None, detail[1] or \"\"\n\n        ordered = sorted(error_details, key=by_status_then_reason)\n        for count, error_detail in enumerate(ordered):"),
+    [V("F29 repaired the other way: the reason is normalised to text when the detail is recorded, plain sorted()", "keep", _R,
+       "            error_details.add((data[\"status\"], None))\n", "            error_details.add((data[\"status\"], \"\"))\n"),
+     V("", "keep", _R, "error_reason = error_data.get(\"reason\") if isinstance(error_data, dict) else str(error_data)",
+       "error_reason = (error_data.get(\"reason\") or \"\") if isinstance(error_data, dict) else str(error_data)"),
+     V("", "keep", _R, "enumerate(sorted(error_details, key=lambda d: (d[0], d[1] is not None, d[1] or \"\"))):", "enumerate(sorted(error_details)):")],
+    [V("F29 half repaired the other way: a missing error object is normalised, `reason: null` is not", "break", _R,
+       "            error_details.add((data[\"status\"], None))\n", "            error_details.add((data[\"status\"], \"\"))\n", "O19.9"),
+     V("", "break", _R, "enumerate(sorted(error_details, key=lambda d: (d[0], d[1] is not None, d[1] or \"\"))):", "enumerate(sorted(error_details)):")],
+    # F30: white space around the colon of the sort member
+    V("F30: white space before the colon not accepted", "break", _R, "re.compile(r\"sort\\\"\\s*:\\s*(\\[)\")", "re.compile(r\"sort\\\":\\s*(\\[)\")", "O19.2"),
+    V("F30: group 1 opens before the white space", "break", _R, "re.compile(r\"sort\\\"\\s*:\\s*(\\[)\")", "re.compile(r\"sort\\\"\\s*:(\\s*\\[)\")", "O19.2"),
+    V("F30 respelled: the pattern is searched through the compiled object", "keep", _R, "re.search(self.sort_pattern, response_str[index_of_last_sort::])",
+      "self.sort_pattern.search(response_str[index_of_last_sort::])"),
+    V("F30 respelled: explicit JSON white space class", "keep", _R,
+      "re.compile(r\"sort\\\"\\s*:\\s*(\\[)\")", "re.compile(r'sort\"[ \\t\\r\\n]*:[ \\t\\r\\n]*(\\[)')"),
+    [V("F30 respelled: the decoder offset is the end of the match (lookahead instead of a group)", "keep", _R, "re.compile(r\"sort\\\"\\s*:\\s*(\\[)\")", "re.compile(r\"sort\\\"\\s*:\\s*(?=\\[)\")"),
+     V("", "keep", _R, "last_sort_str.start(1)", "last_sort_str.end()")],
     # preserving
     V("predicate extracted into a local", "keep", _R, "                if data[\"status\"] > 299 or (\"_shards\" in data and data[\"_shards\"][\"failed\"] > 0):\n                    bulk_error_count += 1\n                    self.extract_error_details(error_details, data)\n                else:\n                    bulk_success_count += 1\n        stats = {\n            \"took\": props.get(\"took\"),",
       "                failed = data[\"status\"] > 299 or (\"_shards\" in data and data[\"_shards\"][\"failed\"] > 0)\n                if failed:\n                    bulk_error_count += 1\n                    self.extract_error_details(error_details, data)\n                else:\n                    bulk_success_count += 1\n        stats = {\n            \"took\": props.get(\"took\"),"),
